@@ -60,6 +60,34 @@ func init() {
 			{Name: "start aborts on an unreadable sleep state", ExpectRule: "C34.R4", ExpectKey: "Start", Edits: []Edit{
 				{File: sl, Old: "\t\t\tm.logger.Debug(\"no persisted sleep state\", logging.KeyError, err)\n", New: "\t\t\tm.logger.Debug(\"no persisted sleep state\", logging.KeyError, err)\n\t\t\treturn err\n"},
 			}},
+			// round 2
+			{Name: "regeneration decided by a both-files-exist predicate", ExpectRule: "C34.R2", ExpectKey: "LoadOrCreateKeypair regeneration guard", Edits: []Edit{
+				{File: kp, Old: "\tkp, err := LoadKeypair(dataDir)\n\tif err == nil {\n\t\treturn kp, false, nil // Loaded existing keypair\n\t}\n\n\t// Check if it's a \"not found\" error\n\tif !strings.Contains(err.Error(), \"not found\") {\n\t\treturn nil, false, err // Some other error\n\t}\n\n\t// Generate new keypair\n\tkp, err = NewKeypair()", New: "\tif KeypairExists(dataDir) {\n\t\tkp, err := LoadKeypair(dataDir)\n\t\tif err != nil {\n\t\t\treturn nil, false, err\n\t\t}\n\t\treturn kp, false, nil\n\t}\n\n\t// Generate new keypair\n\tkp, err := NewKeypair()"},
+			}},
+			{Name: "regeneration decided by the existence of the public key file", ExpectRule: "C34.R2", ExpectKey: "LoadOrCreateKeypair regeneration guard", Edits: []Edit{
+				{File: kp, Old: "\tkp, err := LoadKeypair(dataDir)\n\tif err == nil {\n\t\treturn kp, false, nil // Loaded existing keypair\n\t}\n\n\t// Check if it's a \"not found\" error\n\tif !strings.Contains(err.Error(), \"not found\") {\n\t\treturn nil, false, err // Some other error\n\t}\n\n\t// Generate new keypair\n\tkp, err = NewKeypair()", New: "\tif _, serr := os.Stat(filepath.Join(dataDir, pubKeyFileName)); !os.IsNotExist(serr) {\n\t\tkp, err := LoadKeypair(dataDir)\n\t\tif err != nil {\n\t\t\treturn nil, false, err\n\t\t}\n\t\treturn kp, false, nil\n\t}\n\n\t// Generate new keypair\n\tkp, err := NewKeypair()"},
+			}},
+			{Name: "new identity stored unconditionally", ExpectRule: "C34.R2", ExpectKey: "LoadOrCreate regeneration guard", Edits: []Edit{
+				{File: idf, Old: "\tid, err := Load(dataDir)\n\tif err == nil {\n\t\treturn id, false, nil // Loaded existing ID\n\t}\n\n\t// Check if it's a \"not found\" error\n\tif !strings.Contains(err.Error(), \"not found\") {\n\t\treturn ZeroID, false, err // Some other error\n\t}\n\n\t// Generate new ID\n\tid, err = NewAgentID()", New: "\tid, err := NewAgentID()"},
+			}},
+			{Name: "temporary file opened without O_TRUNC", ExpectRule: "C34.R1", ExpectKey: "writeFileSync", Edits: []Edit{
+				{File: sl, Old: "\tif err := os.WriteFile(tmpFile, data, 0600); err != nil {\n\t\treturn err\n\t}\n\tif err := os.Rename(tmpFile, m.stateFile); err != nil {", New: "\tif err := writeFileSync(tmpFile, data, 0600); err != nil {\n\t\treturn err\n\t}\n\tif err := os.Rename(tmpFile, m.stateFile); err != nil {"},
+				{File: sl, Old: "// LoadState loads persisted state from disk.", New: "func writeFileSync(name string, data []byte, perm os.FileMode) error {\n\tf, err := os.OpenFile(name, os.O_WRONLY|os.O_CREATE, perm)\n\tif err != nil {\n\t\treturn err\n\t}\n\tif _, err := f.Write(data); err != nil {\n\t\tf.Close()\n\t\treturn err\n\t}\n\tif err := f.Sync(); err != nil {\n\t\tf.Close()\n\t\treturn err\n\t}\n\treturn f.Close()\n}\n\n// LoadState loads persisted state from disk."},
+			}},
+			{Name: "synced writer handed the final path", ExpectRule: "C34.R1", ExpectKey: "writeFileSync", Edits: []Edit{
+				{File: sl, Old: "\tif err := os.WriteFile(tmpFile, data, 0600); err != nil {\n\t\treturn err\n\t}\n\tif err := os.Rename(tmpFile, m.stateFile); err != nil {", New: "\tif err := writeFileSync(m.stateFile, data, 0600); err != nil {\n\t\treturn err\n\t}\n\tif err := os.Rename(tmpFile, m.stateFile); err != nil {"},
+				{File: sl, Old: "// LoadState loads persisted state from disk.", New: "func writeFileSync(name string, data []byte, perm os.FileMode) error {\n\tf, err := os.OpenFile(name, os.O_WRONLY|os.O_CREATE|os.O_TRUNC, perm)\n\tif err != nil {\n\t\treturn err\n\t}\n\tif _, err := f.Write(data); err != nil {\n\t\tf.Close()\n\t\treturn err\n\t}\n\tif err := f.Sync(); err != nil {\n\t\tf.Close()\n\t\treturn err\n\t}\n\treturn f.Close()\n}\n\n// LoadState loads persisted state from disk."},
+			}},
+			{Name: "rewrite: agent id decided by its single-file existence predicate", Edits: []Edit{
+				{File: idf, Old: "\tid, err := Load(dataDir)\n\tif err == nil {\n\t\treturn id, false, nil // Loaded existing ID\n\t}\n\n\t// Check if it's a \"not found\" error\n\tif !strings.Contains(err.Error(), \"not found\") {\n\t\treturn ZeroID, false, err // Some other error\n\t}\n\n\t// Generate new ID\n\tid, err = NewAgentID()", New: "\tif Exists(dataDir) {\n\t\tid, err := Load(dataDir)\n\t\tif err != nil {\n\t\t\treturn ZeroID, false, err\n\t\t}\n\t\treturn id, false, nil\n\t}\n\n\t// Generate new ID\n\tid, err := NewAgentID()"},
+			}},
+			{Name: "rewrite: regeneration decided by Stat of the private key file", Edits: []Edit{
+				{File: kp, Old: "\tkp, err := LoadKeypair(dataDir)\n\tif err == nil {\n\t\treturn kp, false, nil // Loaded existing keypair\n\t}\n\n\t// Check if it's a \"not found\" error\n\tif !strings.Contains(err.Error(), \"not found\") {\n\t\treturn nil, false, err // Some other error\n\t}\n\n\t// Generate new keypair\n\tkp, err = NewKeypair()", New: "\tif _, serr := os.Stat(filepath.Join(dataDir, keyFileName)); !os.IsNotExist(serr) {\n\t\tkp, err := LoadKeypair(dataDir)\n\t\tif err != nil {\n\t\t\treturn nil, false, err\n\t\t}\n\t\treturn kp, false, nil\n\t}\n\n\t// Generate new keypair\n\tkp, err := NewKeypair()"},
+			}},
+			{Name: "rewrite: temporary file written by a syncing helper that truncates", Edits: []Edit{
+				{File: sl, Old: "\tif err := os.WriteFile(tmpFile, data, 0600); err != nil {\n\t\treturn err\n\t}\n\tif err := os.Rename(tmpFile, m.stateFile); err != nil {", New: "\tif err := writeFileSync(tmpFile, data, 0600); err != nil {\n\t\treturn err\n\t}\n\tif err := os.Rename(tmpFile, m.stateFile); err != nil {"},
+				{File: sl, Old: "// LoadState loads persisted state from disk.", New: "func writeFileSync(name string, data []byte, perm os.FileMode) error {\n\tf, err := os.OpenFile(name, os.O_WRONLY|os.O_CREATE|os.O_TRUNC, perm)\n\tif err != nil {\n\t\treturn err\n\t}\n\tif _, err := f.Write(data); err != nil {\n\t\tf.Close()\n\t\treturn err\n\t}\n\tif err := f.Sync(); err != nil {\n\t\tf.Close()\n\t\treturn err\n\t}\n\treturn f.Close()\n}\n\n// LoadState loads persisted state from disk."},
+			}},
 			// rewrites
 			{Name: "rewrite: sentinel error and errors.Is classifier", Edits: []Edit{
 				{File: kp, Old: "\t\t\treturn nil, fmt.Errorf(\"keypair not found at %s\", dataDir)", New: "\t\t\treturn nil, fmt.Errorf(\"%w at %s\", errNoKeypairStored, dataDir)"},
@@ -189,30 +217,14 @@ func (cx *c34ctx) ruleAtomic(fns []*ssa.Function) {
 	p, r := cx.p, cx.r
 	nWrites := 0
 	ord := map[string]int{}
+	inScope := map[*ssa.Function]bool{}
 	for _, fn := range fns {
-		var renames, removes []ssa.CallInstruction
+		inScope[fn] = true
+	}
+	for _, fn := range fns {
 		for _, c := range kit.Calls(fn) {
-			if c34IsOS(c, "Rename") {
-				renames = append(renames, c)
-			}
-			if c34IsOS(c, "Remove", "RemoveAll", "Truncate") {
-				removes = append(removes, c)
-			}
-		}
-		for _, c := range kit.Calls(fn) {
-			var path ssa.Value
-			what := ""
-			switch {
-			case c34IsOS(c, "WriteFile"), c34IsOS(c, "Create"):
-				path, what = kit.Arg(c, 0), kit.CalleeOf(c).Name
-			case c34IsOS(c, "OpenFile"):
-				if fl, ok := kit.ConstInt(kit.Arg(c, 1)); ok && fl&0x3 == 0 { // O_RDONLY
-					continue
-				}
-				path, what = kit.Arg(c, 0), "OpenFile"
-			case c34IsOS(c, "CreateTemp"):
-				what = "CreateTemp"
-			default:
+			path, what, isWrite := c34WriteSite(c)
+			if !isWrite {
 				continue
 			}
 			nWrites++
@@ -220,73 +232,125 @@ func (cx *c34ctx) ruleAtomic(fns []*ssa.Function) {
 			ord[fname]++
 			key := fmt.Sprintf("%s file write #%d (%s)", fname, ord[fname], what)
 			pos := p.Pos(c.Pos())
-			var tmp ssa.Value // value naming the temporary file
-			var final ssa.Value
-			if what == "CreateTemp" {
-				// tmp = f.Name()
-				call, _ := c.(*ssa.Call)
-				var fileVal ssa.Value
-				if call != nil {
-					fileVal = kit.ExtractOf(call, 0)
-				}
-				for _, c2 := range kit.Calls(fn) {
-					if cal := kit.CalleeOf(c2); cal.Pkg == "os" && cal.Recv == "File" && cal.Name == "Name" && kit.Receiver(c2) == fileVal && fileVal != nil {
-						tmp = kit.CallValue(c2)
-					}
-				}
-				if tmp == nil {
-					r.Violation("C34.R1", key, pos, "a temporary file is created but its name is never taken: it cannot be renamed over the persistent file")
+			// a fixed-name temporary file must be truncated when it is opened: a leftover of an
+			// interrupted save would otherwise survive behind shorter new content
+			if what == "OpenFile" {
+				fl, isConst := kit.ConstInt(kit.Arg(c, 1))
+				const oExcl, oTrunc, oAppend = 0x80, 0x200, 0x400 // linux values; the checker loads GOOS=linux
+				if isConst && (fl&oAppend != 0 || (fl&oTrunc == 0 && fl&oExcl == 0)) {
+					r.Violation("C34.R1", key, pos, "the file is opened for writing without O_TRUNC (or O_EXCL): what an interrupted earlier save left in a same-named temporary file stays behind the new, shorter content and is renamed over the persistent file, which then fails to parse")
 					continue
 				}
+			}
+			ok, msg := cx.judgeWrite(fn, c, path, what, inScope, 0)
+			if ok {
+				r.OK("C34.R1", key, pos, "%s", msg)
 			} else {
-				base, isTmp := c34TempOf(path)
-				if !isTmp {
-					r.Violation("C34.R1", key, pos, "the file is written in place on its final path: a crash during the write leaves a truncated file (identity unreadable / sleep state lost, the agent comes up awake)")
-					continue
-				}
-				tmp, final = path, base
+				r.Violation("C34.R1", key, pos, "%s", msg)
 			}
-			// rename on every success path
-			var ren ssa.CallInstruction
-			for _, rn := range renames {
-				if kit.Arg(rn, 0) == tmp && kit.CanReach(c, rn) && (final == nil || c34SameStr(kit.Arg(rn, 1), final)) {
-					ren = rn
-				}
-			}
-			if ren == nil {
-				r.Violation("C34.R1", key, pos, "the temporary file is not renamed over the final path it was derived from: the persistent file is never (or wrongly) replaced")
-				continue
-			}
-			bad := ""
-			for _, ret := range kit.Returns(fn) {
-				if ret.Block() == fn.Recover || !kit.ReturnsNilError(ret) || !kit.CanReach(c, ret) {
-					continue
-				}
-				if kit.CanReachAvoiding(c, ret, map[ssa.Instruction]bool{ren: true}) {
-					bad = p.Pos(ret.Pos())
-				}
-			}
-			if bad != "" {
-				r.Violation("C34.R1", key, pos, "success is returned at %s without renaming the temporary file into place: the caller believes the state was saved", bad)
-				continue
-			}
-			// no removal of the destination before the rename
-			dest := kit.Arg(ren, 1)
-			removed := ""
-			for _, rm := range removes {
-				if c34SameStr(kit.Arg(rm, 0), dest) && kit.CanReach(rm, ren) {
-					removed = p.Pos(rm.Pos())
-				}
-			}
-			if removed != "" {
-				r.Violation("C34.R1", key, pos, "the final path is removed at %s before the rename: a crash in between leaves no file at all", removed)
-				continue
-			}
-			r.OK("C34.R1", key, pos, "written to a temporary name and renamed into place on every success path (rename at %s)", p.Pos(ren.Pos()))
 		}
 	}
 	r.Count("file_write_sites", nWrites)
 	r.Require(nWrites >= 1, "floor: no persistent-file write found in internal/identity + internal/sleep and the helpers they call (agent_id, agent_key, agent_key.pub, sleep_state.json are written somewhere), found %d", nWrites)
+}
+
+// c34WriteSite classifies a call that creates or writes a file.
+func c34WriteSite(c ssa.CallInstruction) (path ssa.Value, what string, ok bool) {
+	switch {
+	case c34IsOS(c, "WriteFile"), c34IsOS(c, "Create"):
+		return kit.Arg(c, 0), kit.CalleeOf(c).Name, true
+	case c34IsOS(c, "OpenFile"):
+		if fl, isC := kit.ConstInt(kit.Arg(c, 1)); isC && fl&0x3 == 0 { // O_RDONLY
+			return nil, "", false
+		}
+		return kit.Arg(c, 0), "OpenFile", true
+	case c34IsOS(c, "CreateTemp"):
+		return nil, "CreateTemp", true
+	}
+	return nil, "", false
+}
+
+// judgeWrite decides the atomic-replace discipline for the write at `site` in fn whose target is
+// `path`. When path is a parameter of fn (a "write this file" helper) the discipline is decided
+// at every call site of fn instead.
+func (cx *c34ctx) judgeWrite(fn *ssa.Function, site ssa.CallInstruction, path ssa.Value, what string, inScope map[*ssa.Function]bool, depth int) (bool, string) {
+	p := cx.p
+	var renames, removes []ssa.CallInstruction
+	for _, c := range kit.Calls(fn) {
+		if c34IsOS(c, "Rename") {
+			renames = append(renames, c)
+		}
+		if c34IsOS(c, "Remove", "RemoveAll", "Truncate") {
+			removes = append(removes, c)
+		}
+	}
+	var tmp, final ssa.Value
+	if what == "CreateTemp" {
+		call, _ := site.(*ssa.Call)
+		var fileVal ssa.Value
+		if call != nil {
+			fileVal = kit.ExtractOf(call, 0)
+		}
+		for _, c2 := range kit.Calls(fn) {
+			if cal := kit.CalleeOf(c2); cal.Pkg == "os" && cal.Recv == "File" && cal.Name == "Name" && kit.Receiver(c2) == fileVal && fileVal != nil {
+				tmp = kit.CallValue(c2)
+			}
+		}
+		if tmp == nil {
+			return false, "a temporary file is created but its name is never taken: it cannot be renamed over the persistent file"
+		}
+	} else {
+		base, isTmp := c34TempOf(path)
+		if !isTmp {
+			// helper that writes the path it is given: the caller owns the temp+rename discipline
+			if prm, isParam := path.(*ssa.Parameter); isParam && depth < 2 && fn.Parent() == nil {
+				idx := -1
+				for i, q := range fn.Params {
+					if q == prm {
+						idx = i
+					}
+				}
+				callers := p.StaticCallers(fn)
+				if idx >= 0 && len(callers) > 0 {
+					for _, c := range callers {
+						if idx >= len(c.Common().Args) {
+							return false, "called with too few arguments"
+						}
+						if ok, why := cx.judgeWrite(c.Parent(), c, c.Common().Args[idx], "call of "+fn.Name(), inScope, depth+1); !ok {
+							return false, "via " + kit.FuncName(c.Parent()) + " at " + p.Pos(c.Pos()) + ": " + why
+						}
+					}
+					return true, fmt.Sprintf("writes the path it is given; each of its %d caller(s) passes a temporary name and renames it into place", len(callers))
+				}
+			}
+			return false, "the file is written in place on its final path: a crash during the write leaves a truncated file (identity unreadable / sleep state lost, the agent comes up awake)"
+		}
+		tmp, final = path, base
+	}
+	var ren ssa.CallInstruction
+	for _, rn := range renames {
+		if kit.Arg(rn, 0) == tmp && kit.CanReach(site, rn) && (final == nil || c34SameStr(kit.Arg(rn, 1), final)) {
+			ren = rn
+		}
+	}
+	if ren == nil {
+		return false, "the temporary file is not renamed over the final path it was derived from: the persistent file is never (or wrongly) replaced"
+	}
+	for _, ret := range kit.Returns(fn) {
+		if ret.Block() == fn.Recover || !kit.ReturnsNilError(ret) || !kit.CanReach(site, ret) {
+			continue
+		}
+		if kit.CanReachAvoiding(site, ret, map[ssa.Instruction]bool{ren: true}) {
+			return false, "success is returned at " + p.Pos(ret.Pos()) + " without renaming the temporary file into place: the caller believes the state was saved"
+		}
+	}
+	dest := kit.Arg(ren, 1)
+	for _, rm := range removes {
+		if c34SameStr(kit.Arg(rm, 0), dest) && kit.CanReach(rm, ren) {
+			return false, "the final path is removed at " + p.Pos(rm.Pos()) + " before the rename: a crash in between leaves no file at all"
+		}
+	}
+	return true, "written to a temporary name and renamed into place on every success path (rename at " + p.Pos(ren.Pos()) + ")"
 }
 
 // ---------------- error text evaluation (R2)
@@ -600,6 +664,9 @@ func (cx *c34ctx) ruleRegenerate() {
 			}
 		}
 		if loadCall == nil {
+			// the store is not governed by a loader's error: existence-predicate form
+			nCreators++
+			cx.regenerateByExistence(fn, storeCall)
 			continue
 		}
 		nCreators++
@@ -667,6 +734,208 @@ func (cx *c34ctx) ruleRegenerate() {
 	}
 	r.Count("load_or_create_functions", nCreators)
 	r.Require(nCreators >= 2, "floor: expected the agent-id and the keypair load-or-create functions, found %d", nCreators)
+}
+
+// c34PathName returns the constant last path element of a path expression
+// (filepath.Join(dir, "name") or dir + "/name").
+func c34PathName(v ssa.Value) (string, bool) {
+	switch x := v.(type) {
+	case *ssa.BinOp:
+		if x.Op == token.ADD {
+			if s, ok := kit.ConstString(x.Y); ok {
+				if i := strings.LastIndexAny(s, "/\\"); i >= 0 {
+					s = s[i+1:]
+				}
+				return s, s != ""
+			}
+		}
+	case *ssa.Call:
+		cal := kit.CalleeOf(x)
+		if cal.Pkg != "path/filepath" && cal.Pkg != "path" || cal.Name != "Join" || len(x.Call.Args) != 1 {
+			return "", false
+		}
+		sl, ok := x.Call.Args[0].(*ssa.Slice)
+		if !ok || sl.X.Referrers() == nil {
+			return "", false
+		}
+		best, name := int64(-1), ""
+		for _, rf := range *sl.X.Referrers() {
+			ia, ok := rf.(*ssa.IndexAddr)
+			if !ok || ia.Referrers() == nil {
+				continue
+			}
+			idx, ok := kit.ConstInt(ia.Index)
+			if !ok {
+				continue
+			}
+			for _, rr := range *ia.Referrers() {
+				if st, ok := rr.(*ssa.Store); ok && st.Addr == ssa.Value(ia) {
+					if idx > best {
+						best = idx
+						name, _ = kit.ConstString(st.Val)
+					}
+				}
+			}
+		}
+		return name, name != ""
+	}
+	return "", false
+}
+
+// c34Probes lists the constant file names a function probes (Stat/Lstat/Open/ReadFile), looking
+// one level into repository callees. unknown=true if a probed path has no constant name.
+func c34Probes(fn *ssa.Function, depth int) (names []string, unknown bool) {
+	for _, c := range kit.Calls(fn) {
+		if c34IsOS(c, "Stat", "Lstat", "Open", "ReadFile", "OpenFile") {
+			if n, ok := c34PathName(kit.Arg(c, 0)); ok {
+				names = append(names, n)
+			} else {
+				unknown = true
+			}
+			continue
+		}
+		if cal := kit.CalleeOf(c); depth < 1 && cal.Static != nil && cal.Static.Blocks != nil && kit.IsRepoPkg(cal.Pkg) {
+			n2, u2 := c34Probes(cal.Static, depth+1)
+			names = append(names, n2...)
+			unknown = unknown || u2
+		}
+	}
+	return
+}
+
+// regenerateByExistence decides R2 for a load-or-create function whose generate-and-store branch
+// is selected by an existence test instead of the loader's error.
+func (cx *c34ctx) regenerateByExistence(fn *ssa.Function, storeCall ssa.CallInstruction) {
+	p, r := cx.p, cx.r
+	fname := kit.FuncName(fn)
+	key := fname + " regeneration guard"
+	pos := p.Pos(storeCall.Pos())
+	// the loader of the same identity: called here, or the package function with the same result type
+	readsFiles := func(f *ssa.Function) bool {
+		for _, c := range kit.Calls(f) {
+			if c34IsOS(c, "ReadFile", "Open", "OpenFile") {
+				return true
+			}
+		}
+		return false
+	}
+	var loader *ssa.Function
+	for _, c := range kit.Calls(fn) {
+		if cal := kit.CalleeOf(c); cal.Static != nil && cal.Static.Blocks != nil && kit.IsRepoPkg(cal.Pkg) && cal.Static.Signature.Recv() == nil && readsFiles(cal.Static) {
+			if call, ok := c.(*ssa.Call); ok && kit.ErrResultOf(call) != nil {
+				loader = cal.Static
+			}
+		}
+	}
+	if loader == nil && fn.Signature.Results().Len() > 0 {
+		for _, f := range p.FuncsInPkg(kit.FuncPkgPath(fn)) {
+			if f != fn && f.Parent() == nil && f.Signature.Recv() == nil && f.Signature.Results().Len() == 2 && readsFiles(f) &&
+				types.Identical(f.Signature.Results().At(0).Type(), fn.Signature.Results().At(0).Type()) {
+				loader = f
+			}
+		}
+	}
+	if loader == nil {
+		r.Violation("C34.R2", key, pos, "a new identity is generated and stored without consulting what is stored: an existing private key / agent id is replaced")
+		return
+	}
+	// primary file of the loader
+	var reads []*ssa.Call
+	for _, c := range kit.Calls(loader) {
+		if call, ok := c.(*ssa.Call); ok && c34IsOS(c, "ReadFile", "Open", "OpenFile") {
+			reads = append(reads, call)
+		}
+	}
+	primary := ""
+	for _, a := range reads {
+		dom := true
+		for _, b := range reads {
+			if a != b && !kit.Precedes(a, b) {
+				dom = false
+			}
+		}
+		if dom {
+			primary, _ = c34PathName(kit.Arg(a, 0))
+		}
+	}
+	if !r.Require(primary != "", "anchor-unresolved: constant name of the primary file read by %s", kit.FuncName(loader)) {
+		return
+	}
+	decided := false
+	for _, g := range kit.GuardsOf(storeCall) {
+		cond, pol := g.Cond, g.Polarity
+		for {
+			u, ok := cond.(*ssa.UnOp)
+			if !ok || u.Op != token.NOT {
+				break
+			}
+			cond, pol = u.X, !pol
+		}
+		// (a) existence predicate of the package
+		if c, ok := cond.(*ssa.Call); ok {
+			cal := kit.CalleeOf(c)
+			if cal.Static != nil && cal.Static.Blocks != nil && kit.IsRepoPkg(cal.Pkg) {
+				names, unknown := c34Probes(cal.Static, 0)
+				if len(names) == 0 && !unknown {
+					continue
+				}
+				decided = true
+				if pol {
+					r.Violation("C34.R2", key, pos, "a new identity is generated when %s reports that files exist: the stored identity is replaced", cal.Static.Name())
+					return
+				}
+				extra := ""
+				hasPrimary := false
+				for _, n := range names {
+					if n == primary {
+						hasPrimary = true
+					} else {
+						extra = n
+					}
+				}
+				switch {
+				case unknown || !hasPrimary:
+					r.Violation("C34.R2", key, pos, "a new identity is generated when %s is false, but that predicate does not test the primary file %q that %s reads: a stored identity is replaced", cal.Static.Name(), primary, loader.Name())
+				case extra != "":
+					r.Violation("C34.R2", key, pos, "a new identity is generated when %s is false, and that predicate also requires %q: after a crash that left only the primary file %q (the stored private key) the predicate is false and a new identity is stored over it", cal.Static.Name(), extra, primary)
+				default:
+					r.OK("C34.R2", key, pos, "a new identity is generated only when %s finds the primary file %q absent", cal.Static.Name(), primary)
+				}
+				return
+			}
+			// (b) inline classification of a Stat error
+			var statErr ssa.Value
+			switch {
+			case cal.Pkg == "os" && cal.Name == "IsNotExist":
+				statErr = kit.Arg(c, 0)
+			case cal.Pkg == "errors" && cal.Name == "Is":
+				statErr = kit.Arg(c, 0)
+			}
+			if statErr != nil {
+				if sc, _, ok := kit.ResultOf(statErr); ok && c34IsOS(sc, "Stat", "Lstat") {
+					decided = true
+					n, _ := c34PathName(kit.Arg(sc, 0))
+					r.Decide(pol && n == primary, "C34.R2", key, pos,
+						fmt.Sprintf("a new identity is generated only when the primary file %q does not exist", primary),
+						fmt.Sprintf("a new identity is generated depending on the existence of %q, not of the primary file %q: a stored identity is replaced when only the primary file survived a crash", n, primary))
+					return
+				}
+			}
+		}
+		if x, trueMeansNil, ok := kit.IsErrNilCheck(cond); ok {
+			if sc, _, ok2 := kit.ResultOf(x); ok2 && c34IsOS(sc, "Stat", "Lstat") {
+				decided = true
+				n, _ := c34PathName(kit.Arg(sc, 0))
+				r.Decide(trueMeansNil != pol && n == primary, "C34.R2", key, pos,
+					fmt.Sprintf("a new identity is generated only when probing the primary file %q fails", primary),
+					fmt.Sprintf("a new identity is generated depending on a probe of %q, not of the primary file %q (or on its success)", n, primary))
+				return
+			}
+		}
+	}
+	if !decided {
+		r.Violation("C34.R2", key, pos, "the branch that generates and stores a new identity is not limited to \"primary file %q absent\" by a recognised test (loader error classifier, existence predicate, Stat): a stored identity can be replaced", primary)
+	}
 }
 
 // ---------------- R3
